@@ -109,6 +109,28 @@ NAMES4 = {
     ("C19", "1"): ("transposed-header-accepted", []), ("C19", "2"): ("contextmanager-no-finally", []),
     ("C20", "1"): ("serial-cv-fits-callers-estimator", ["C12"]), ("C20", "2"): ("default-region-written-to-param", ["C09"]),
 }
+NAMES5 = {
+    ("C01", "1"): ("trend-north-powers-by-east", []), ("C01", "2"): ("chain-predict-first-plus-current", []),
+    ("C02", "1"): ("weights-multiplied-into-rows-squared", []), ("C02", "2"): ("uniform-weights-dropped-under-damping", []),
+    ("C03", "1"): ("trend-powers-alias-one-buffer", []), ("C03", "2"): ("own-rescale-global-ptp", []),
+    ("C04", "1"): ("kernel-buffer-in-coordinate-dtype", []), ("C04", "2"): ("cubic-absolute-tol", []),
+    ("C05", "1"): ("spline-region-from-forces", []), ("C05", "2"): ("checkerboard-meshgrid-fast-path", []),
+    ("C06", "1"): ("chain-keeps-stale-weights", []), ("C06", "2"): ("spline-filter-from-scaled-jacobian", []),
+    ("C07", "1"): ("shape-to-spacing-pixel-not-reversed", []), ("C07", "2"): ("line-coordinates-lru-cache", []),
+    ("C08", "1"): ("label-stride-rows", []), ("C08", "2"): ("centres-filtered-by-data-box", []),
+    ("C09", "1"): ("zero-weight-points-dropped", []), ("C09", "2"): ("centres-update-by-index", []),
+    ("C10", "1"): ("reciprocal-of-integer-sums", []), ("C10", "2"): ("mean-variance-columns-interleaved", []),
+    ("C11", "1"): ("partition-diff-min-empty", []), ("C11", "2"): ("test-size-none-resolved-early", []),
+    ("C12", "1"): ("splinecv-unravel-transposed", []), ("C12", "2"): ("scorer-kwargs-dropped", []),
+    ("C13", "1"): ("inside-degenerate-region-false", []), ("C13", "2"): ("pad-region-collapse-inverted", []),
+    ("C14", "1"): ("collapse-unrolled-wrong-middle", []), ("C14", "2"): ("window-region-tuple", []),
+    ("C15", "1"): ("median-distance-all-coordinates", []), ("C15", "2"): ("knn-exact-at-coincident-query", []),
+    ("C16", "1"): ("hull-mask-skipped-for-full-grids", []), ("C16", "2"): ("simplex-tol-by-magnitude", []),
+    ("C17", "1"): ("longitude-360-rejected", []), ("C17", "2"): ("region-range-check-ordered-bounds", []),
+    ("C18", "1"): ("table-names-sorted", []), ("C18", "2"): ("name-string-length-match", []),
+    ("C19", "1"): ("header-split-single-blank", []), ("C19", "2"): ("range-check-one-sided", []),
+    ("C20", "1"): ("check-coordinates-by-broadcast", []), ("C20", "2"): ("rolling-window-slices-before-check", ["C14"]),
+}
 PREFIX = ""
 ENV1 = {"OMP_NUM_THREADS": "1", "OPENBLAS_NUM_THREADS": "1", "MKL_NUM_THREADS": "1"}
 
@@ -211,6 +233,9 @@ def main():
     if "--wave4" in args:
         SRC, NAMES, PREFIX = "/tmp/mutout4", NAMES4, "w4-"
         args.remove("--wave4")
+    if "--wave5" in args:
+        SRC, NAMES, PREFIX = "/tmp/mutout5", NAMES5, "w5-"
+        args.remove("--wave5")
     jobs, only, run_tests = 4, None, True
     i = 0
     while i < len(args):
